@@ -178,7 +178,8 @@ def main(argv=None) -> int:
         return do_replay(prop, mod, args.replay)
 
     t0 = time.time()
-    print(f"== {prop} tier={tier} seed={seed} workers={engine.NWORKERS} repo=/repo (working tree)")
+    import pyanalyze
+    print(f"== {prop} tier={tier} seed={seed} workers={engine.NWORKERS} pyanalyze={os.path.dirname(pyanalyze.__file__)} (working tree)")
     extra: Dict[str, Any] = {}
     pre = getattr(mod, "pre_run", None)
     if pre is not None:
